@@ -102,7 +102,7 @@ static void check_gf(uint64_t p, int n, uint64_t ia) {
 	vf::add(C_GF_NONSING); vf::add(C_DISTINCT);
 	if (ex) vf::add(C_EXCH); else vf::add(C_NOEXCH);
 	uint64_t nb = ipow(p, n);
-	bool allb = nb <= 32;
+	bool allb = nb <= 27;
 	int nmodes = p == 2 ? 1 : 2; // GF(2): a single non-zero element, nothing to prefer
 	for (int mode = 0; mode < nmodes; mode++) {
 		if (allb) for (uint64_t ib = 0; ib < nb; ib++) exact_square(a, n, digits(ib, p, n), 1, p, mode, kase, false);
@@ -252,7 +252,7 @@ static bool ld_needs_exchange(VL a, int n) {
 }
 
 // "fgrid:<n>:<base>:<off>:<idx>" all integer matrices of a grid; b = (1,2,..)^T and b = I
-static void check_fgrid(int n, int base, int off, uint64_t idx) {
+static void check_fgrid(int n, int base, int off, uint64_t idx, int what = 15) {
 	std::string kase = fmt("fgrid:%d:%d:%d:%llu", n, base, off, (unsigned long long)idx);
 	vf::cur(kase);
 	VU d = digits(idx, base, n * n);
@@ -265,8 +265,10 @@ static void check_fgrid(int n, int base, int off, uint64_t idx) {
 	if (ld_needs_exchange(a, n)) vf::add(C_FLT_EXCH);
 	VL b(n), I(n * n, 0); for (int i = 0; i < n; i++) { b[i] = i + 1; I[i * n + i] = 1; }
 	const char* fam = n == 3 ? "grid3" : "grid4";
-	float_system<float>(a, n, n, b, 1, kase, fam); float_system<double>(a, n, n, b, 1, kase, fam);
-	float_system<float>(a, n, n, I, n, kase, fam); float_system<double>(a, n, n, I, n, kase, fam);
+	if (what & 1) float_system<float>(a, n, n, b, 1, kase, fam);
+	if (what & 2) float_system<double>(a, n, n, b, 1, kase, fam);
+	if (what & 4) float_system<float>(a, n, n, I, n, kase, fam);
+	if (what & 8) float_system<double>(a, n, n, I, n, kase, fam);
 }
 
 // structured families up to 12x12
@@ -327,9 +329,11 @@ int main(int argc, char** argv) {
 	rep.c_supp = vf::counter("violations_not_listed_repeats");
 	if (vf::opt.replay) { vf::parallel(1, [&](uint64_t) { run_case(vf::opt.kase); }); return vf::finish(); }
 	bool T = vf::opt.thorough();
+	double t_sec = vf::now_s();
+#define SECTION_DONE(name) do { vf::setinfo(std::string("seconds.") + name, fmt("%.1f", vf::now_s() - t_sec)); t_sec = vf::now_s(); } while (0)
 
 	// ---- exact: all systems over small fields
-	struct G { uint64_t p; int n; bool thorough_only; } gs[] = { { 2, 1, false }, { 2, 2, false }, { 3, 2, false }, { 5, 2, false }, { 7, 2, false }, { 2, 3, false }, { 3, 3, false }, { 5, 3, false }, { 2, 4, false }, { 7, 3, true }, { 2, 5, true }, { 3, 4, true } };
+	struct G { uint64_t p; int n; bool thorough_only; } gs[] = { { 2, 1, false }, { 2, 2, false }, { 3, 2, false }, { 5, 2, false }, { 7, 2, false }, { 2, 3, false }, { 3, 3, false }, { 5, 3, false }, { 2, 4, false }, { 2, 5, true } };
 	for (size_t g = 0; g < sizeof gs / sizeof *gs; g++) {
 		if (gs[g].thorough_only && !T) continue;
 		uint64_t p = gs[g].p; int n = gs[g].n;
@@ -340,6 +344,7 @@ int main(int argc, char** argv) {
 			for (uint64_t i = b * blk; i < (b + 1) * blk && i < total; i++) check_gf(p, n, i);
 		}, 4);
 	}
+	SECTION_DONE("gf_all_systems");
 	// ---- exact: P*U / P*L*U over GF(2^61-1), n = 1..12
 	struct Job { int n, v; std::vector<int> perm; };
 	std::vector<Job> jobs;
@@ -358,25 +363,28 @@ int main(int argc, char** argv) {
 		for (size_t k = 0; k < perms.size(); k++) for (int v = 0; v < 2; v++) { Job j = { n, v, perms[k] }; jobs.push_back(j); }
 	}
 	vf::parallel(jobs.size(), [&](uint64_t i) { check_plu(jobs[i].n, jobs[i].v, jobs[i].perm); }, 16);
+	SECTION_DONE("plu");
 	// ---- exact least squares
-	struct LS { int m, n, rad; bool thorough_only; } ls[] = { { 2, 1, 2, false }, { 3, 1, 2, false }, { 3, 2, 1, false }, { 4, 2, 1, false }, { 3, 2, 2, false }, { 5, 2, 1, false }, { 4, 3, 1, true }, { 4, 2, 2, true }, { 5, 3, 1, true } };
+	struct LS { int m, n, rad; bool thorough_only; } ls[] = { { 2, 1, 2, false }, { 3, 1, 2, false }, { 3, 2, 1, false }, { 4, 2, 1, false }, { 3, 2, 2, false }, { 5, 2, 1, false }, { 4, 3, 1, true }, { 4, 2, 2, true } };
 	for (size_t g = 0; g < sizeof ls / sizeof *ls; g++) {
 		if (ls[g].thorough_only && !T) continue;
 		int m = ls[g].m, n = ls[g].n, rad = ls[g].rad;
 		uint64_t total = ipow(2 * rad + 1, m * n), blk = total > 4096 ? 256 : 1, nblk = (total + blk - 1) / blk;
 		vf::parallel(nblk, [&](uint64_t b) { if (vf::deadline_passed()) { vf::cap_hit("deadline inside exact least squares"); return; } for (uint64_t i = b * blk; i < (b + 1) * blk && i < total; i++) check_lsq(m, n, rad, i); }, 4);
 	}
+	SECTION_DONE("lsq_exact");
 	// ---- floating point: integer grids
 	vf::parallel(3125, [&](uint64_t b) { for (uint64_t i = b * 625; i < (b + 1) * 625; i++) check_fgrid(3, 5, 2, i); mx.flush(); mx.m.clear(); }, 4);
-	if (!T) vf::parallel(256, [&](uint64_t b) { for (uint64_t i = b * 256; i < (b + 1) * 256; i++) check_fgrid(4, 2, 0, i); mx.flush(); mx.m.clear(); }, 2);
-	else {
+	vf::parallel(256, [&](uint64_t b) { for (uint64_t i = b * 256; i < (b + 1) * 256; i++) check_fgrid(4, 2, 0, i); mx.flush(); mx.m.clear(); }, 2);
+	if (T) { // all 4x4 over {-1,0,1}: double, right-hand side I (4 columns)
 		bool capped = false;
 		vf::parallel(6561, [&](uint64_t b) {
 			if (vf::deadline_passed()) { if (!capped) { capped = true; vf::cap_hit("deadline inside the float 3^16 grid"); } return; }
-			for (uint64_t i = b * 6561; i < (b + 1) * 6561; i++) check_fgrid(4, 3, 1, i);
+			for (uint64_t i = b * 6561; i < (b + 1) * 6561; i++) check_fgrid(4, 3, 1, i, 8);
 			mx.flush(); mx.m.clear();
 		}, 8);
 	}
+	SECTION_DONE("float_grids");
 	// ---- floating point: families up to 12x12
 	struct FJ { int fam, n, var; };
 	std::vector<FJ> fj;
@@ -389,6 +397,7 @@ int main(int argc, char** argv) {
 	}
 	vf::parallel(fj.size(), [&](uint64_t i) { check_family(fj[i].fam, fj[i].n, fj[i].var); mx.flush(); mx.m.clear(); }, 8);
 
+	SECTION_DONE("float_families");
 	mx.collect(); mx.publish();
 	vf::setinfo("residual_bound", fmt("\"||A x - b||_inf <= %.0f * eps * kappa_inf(A) * ||b||_inf (normal equations: A^T A, |A^T||b|)\"", C_RESID));
 	vf::sample("gf:5:3:<idx> = every 3x3 system over GF(5) (b = I and one column, two pivot preferences); gf:2:4:<idx> x all 16 right-hand sides");
